@@ -30,8 +30,11 @@ def run(repo, rep, tier):
     ce = ConstEnv(repo)
     pt = repo.func('hostkeytest', 'HostKeyTest.perform_test')
     rep.saw(pt)
-    consts = {'HostKeyTest.TWO2K_MODULUS_WARNING': ce.lookup('hostkeytest', 'HostKeyTest.TWO2K_MODULUS_WARNING'), 'HostKeyTest.SMALL_ECC_MODULUS_WARNING': ce.lookup('hostkeytest', 'HostKeyTest.SMALL_ECC_MODULUS_WARNING'),
-              'HostKeyTest.RSA_FAMILY': ce.lookup('hostkeytest', 'HostKeyTest.RSA_FAMILY')}
+    from props import _hostkey_rating
+    consts = _hostkey_rating.class_consts(repo, ce, 'hostkeytest', 'HostKeyTest')
+    for need in ('HostKeyTest.TWO2K_MODULUS_WARNING', 'HostKeyTest.SMALL_ECC_MODULUS_WARNING', 'HostKeyTest.RSA_FAMILY'):
+        if need not in consts:
+            raise AnalysisError('anchor vanished: %s' % need)
     rep.check('thresholds', 'the 2048-bit warning text names 2048 bits', '2048-bit' in consts['HostKeyTest.TWO2K_MODULUS_WARNING'], repo.cls('hostkeytest', 'HostKeyTest'), 'TWO2K warning text changed')
 
     # ---- rule 1: threshold partition ------------------------------------------------------------------------------------
